@@ -187,6 +187,47 @@ theorem c09_fresh_opid (U : Hdrs) (cid : Bytes) (opid : Nat) (ms : Int) (ctr : N
     intro e
     exact hne (natDigits_injective (Option.some.inj e)).symm
 
+/-- **Freshness under concurrency.** `getNextOpID` is an atomic fetch-and-add (trusted; tied to the
+code on every run by the `c9ids` op, which has many goroutines create and receive contexts at the
+same time): `n` concurrent calls from counter value `ctr` take effect one after the other and return
+`issuedIds ctr n`. Those ids are pairwise distinct and none of them was issued before; and two
+requests — any headers, any callers — that are read with different counter values give the two
+handlers contexts with different op ids, so both can be used for onward calls at the same time. -/
+theorem c09_fresh_concurrent :
+    (∀ ctr n : Nat, (issuedIds ctr n).Nodup ∧ (issuedIds ctr n).length = n ∧
+      (∀ issued, issued ≤ ctr → natDigits issued ∉ issuedIds ctr n)) ∧
+    (∀ (U U' : Hdrs) (cid cid' : Bytes) (opid opid' : Nat) (ms ms' : Int) (ctr ctr' : Nat) (w w' : Hdrs) (p p' : Bytes),
+      UserOK U → UserOK U' → w.Perm (callerCtx cid opid U ms).req → w'.Perm (callerCtx cid' opid' U' ms').req →
+      Small w → Small w' → ctr ≠ ctr' →
+      ∃ s s', readRequestHeader (marshal w ++ p) ctr = .ok (s, p) ∧
+        readRequestHeader (marshal w' ++ p') ctr' = .ok (s', p') ∧
+        s.req.get? opIdHeader = some (natDigits (ctr + 1)) ∧ s'.req.get? opIdHeader = some (natDigits (ctr' + 1)) ∧
+        s.req.get? opIdHeader ≠ s'.req.get? opIdHeader) := by
+  refine ⟨fun ctr n => ⟨?_, by simp [issuedIds], ?_⟩, ?_⟩
+  · unfold issuedIds
+    refine List.Pairwise.map _ ?_ (List.nodup_range (n := n))
+    intro a b hab e
+    have := natDigits_injective e
+    omega
+  · intro issued hle hm
+    simp only [issuedIds, List.mem_map, List.mem_range] at hm
+    obtain ⟨i, _, e⟩ := hm
+    have := natDigits_injective e
+    omega
+  · intro U U' cid cid' opid opid' ms ms' ctr ctr' w w' p p' hU hU' hw hw' hs hs' hne
+    have h1 : Hdrs.get? (w.without opIdHeader ++ [(opIdHeader, natDigits (ctr + 1))]) opIdHeader = some (natDigits (ctr + 1)) := by
+      rw [handler_lookup U cid opid ms _ w hU hw]
+      simp [handlerView, Hdrs.get?]
+    have h2 : Hdrs.get? (w'.without opIdHeader ++ [(opIdHeader, natDigits (ctr' + 1))]) opIdHeader = some (natDigits (ctr' + 1)) := by
+      rw [handler_lookup U' cid' opid' ms' _ w' hU' hw']
+      simp [handlerView, Hdrs.get?]
+    refine ⟨_, _, c09_server_context U cid opid ms ctr w p hU hw hs, c09_server_context U' cid' opid' ms' ctr' w' p' hU' hw' hs', h1, h2, ?_⟩
+    show Hdrs.get? _ opIdHeader ≠ Hdrs.get? _ opIdHeader
+    rw [h1, h2]
+    intro e
+    have := natDigits_injective (Option.some.inj e)
+    omega
+
 /-- Response headers a handler may set: any, except the reserved `_opid` (and `_cid`, which
 the handler context already carries as the echo). -/
 def RespOK (R : Hdrs) : Prop := opIdHeader ∉ R.keys ∧ cidHeader ∉ R.keys
